@@ -12,6 +12,7 @@
  */
 
 #include "cppFunctionType.h"
+#include "cppIdentifier.h"
 #include "cppParameterList.h"
 #include "cppSimpleType.h"
 #include "cppInstance.h"
@@ -427,6 +428,13 @@ is_equal(const CPPDeclaration *other) const {
   if (_flags != ot->_flags) {
     return false;
   }
+  if (_class_owner != ot->_class_owner) {
+    // A pointer-to-member-function type also names the class.
+    if (_class_owner == nullptr || ot->_class_owner == nullptr ||
+        *_class_owner != *ot->_class_owner) {
+      return false;
+    }
+  }
   if (_parameters == ot->_parameters) {
     return true;
   }
@@ -452,6 +460,14 @@ is_less(const CPPDeclaration *other) const {
   }
   if (_flags != ot->_flags) {
     return _flags < ot->_flags;
+  }
+  if (_class_owner != ot->_class_owner) {
+    if (_class_owner == nullptr || ot->_class_owner == nullptr) {
+      return _class_owner < ot->_class_owner;
+    }
+    if (*_class_owner != *ot->_class_owner) {
+      return *_class_owner < *ot->_class_owner;
+    }
   }
   if (_parameters == ot->_parameters) {
     return 0;
